@@ -143,9 +143,12 @@ CHECKS = {
     ),
     "C12": dict(
         level="model_checking",
-        clauses={"dtype-static", "dtype-export", "dtype-roundtrip"},
-        phases=dict(quick=[dict(profile="ty2", opts=dict(roundtrip=True)), dict(profile="ty2", opts=dict(roundtrip=True, generic=True)), dict(profile="union2", opts=dict(roundtrip=True))],
-                    thorough=[dict(profile="ty2", opts=dict(roundtrip=True)), dict(profile="join2", opts=dict(roundtrip=True)),
+        clauses={"dtype-static", "dtype-export", "dtype-roundtrip", "trace-dtype", "trace-export-dtype"},
+        phases=dict(quick=[dict(profile="ty2", opts=dict(roundtrip=True)), dict(profile="ty2", opts=dict(roundtrip=True, generic=True)), dict(profile="union2", opts=dict(roundtrip=True)),
+                           dict(kind="tracemeta", profiles=[("ty2", 400), ("agg3", 300), ("union2", 200)])],
+                    thorough=[dict(profile="ty2", opts=dict(roundtrip=True)), dict(profile="ty2", opts=dict(roundtrip=True, generic=True)), dict(profile="union2", opts=dict(roundtrip=True)),
+                              dict(kind="tracemeta", profiles=[("ty2", 3000), ("agg3", 2000), ("union3", 2000), ("join2", 2000)]),
+                              dict(profile="join2", opts=dict(roundtrip=True)),
                               dict(profile="union3", opts=dict(roundtrip=True)), dict(profile="agg3", opts=dict(roundtrip=True))]),
     ),
     "C19": dict(
@@ -270,8 +273,10 @@ MANIFEST_TEXT = {
     "C12": dict(
         text="Over a typed alphabet (int / float / bool columns, every operator family that changes a type, case supertypes, null literals, casts, "
              "aggregates, window functions, join padding, union widening) the specification's static type is compared with dtype() and with the "
-             "exported polars dtype (exact family on Polars, numeric family on SQLite), and Table(export) must reproduce the types.",
-        note=TRUST, technique="TLA+ spec + TLC exhaustive generation, replay on real code against predicted observations; dtype / schema oracle"),
+             "exported polars dtype (exact family on Polars, numeric family on SQLite), and Table(export) must reproduce the types. "
+             "Trace validation (TraceMeta.tla, type plane): on the repository's own tests and on generated behaviours every verb must leave the "
+             "type of the columns it does not define unchanged and every export must have the static type families.",
+        note=TRUST, technique="TLA+ spec + TLC exhaustive generation, replay on real code against predicted observations; dtype / schema oracle; trace validation of recorded executions"),
     "C14": dict(
         text="The alphabets contain every offending construct of the rule list in several syntactic positions after short histories; the "
              "specification's elaboration ladder predicts the exception class raised by the verb call, compared on both back ends; after a "
